@@ -206,26 +206,36 @@ def raises_with_inner_guard(model: Model, f: Func):
 
 
 def rule_raise_table(model: Model) -> list[Ob]:
+    """Each table entry must be matched by a *distinct* raise of the function (most specific entries first)."""
     obs = []
-    cache = {}
-    for fn, exc, need, cls in RAISE_TABLE:
-        k = f"{fn}:RAISE-TABLE:{exc or 'any'}:{'+'.join(sorted(need))}"
+    by_fn = {}
+    for ent in RAISE_TABLE:
+        by_fn.setdefault(ent[0], []).append(ent)
+    for fn, ents in by_fn.items():
         if not model.has_func(fn):
-            obs.append(Ob("RAISE-TABLE", k, ERROR, "", fn, f"function {fn} of the confirmed raise table vanished"))
+            for _, exc, need, cls in ents:
+                obs.append(Ob("RAISE-TABLE", f"{fn}:RAISE-TABLE:{exc or 'any'}:{'+'.join(sorted(need))}", ERROR, "", fn,
+                              f"function {fn} of the confirmed raise table vanished"))
             continue
         f = model.func(fn)
-        if fn not in cache:
-            cache[fn] = raises_with_inner_guard(model, f)
-        hit = [r for r in cache[fn] if (exc is None or r[1] == exc) and need <= r[2]]
-        if hit:
-            obs.append(Ob("RAISE-TABLE", k, OK, model.where(f, hit[0][0]), f"{exc} [{cls}]",
-                          f"raise {exc} guarded by a test reading {sorted(need)}"))
-        else:
-            near = [sorted(r[2]) for r in cache[fn] if r[1] == exc]
-            obs.append(Ob("RAISE-TABLE", k, VIOLATED, model.where(f), f"{exc} [{cls}]",
-                          f"{fn} has no `raise {exc}` whose guard reads {sorted(need)} (incompatibility class: {cls}); "
-                          f"guards of that type present read: {near[:4]}. Operands of this class are not rejected by the "
-                          "library and reach torch, which broadcasts size-1 axes or fails with a foreign exception"))
+        raises = raises_with_inner_guard(model, f)
+        used = set()
+        for _, exc, need, cls in sorted(ents, key=lambda e: -len(e[2])):
+            k = f"{fn}:RAISE-TABLE:{exc or 'any'}:{'+'.join(sorted(need))}"
+            hit = [i for i, r in enumerate(raises) if i not in used and (exc is None or r[1] == exc) and need <= r[2]]
+            if hit:
+                # prefer the raise with the fewest extra tokens
+                best = min(hit, key=lambda i: len(raises[i][2] - need))
+                used.add(best)
+                obs.append(Ob("RAISE-TABLE", k, OK, model.where(f, raises[best][0]), f"{exc} [{cls}]",
+                              f"raise {exc or '<any>'} guarded by a test reading {sorted(need)}"))
+            else:
+                near = [sorted(r[2]) for r in raises if exc is None or r[1] == exc]
+                obs.append(Ob("RAISE-TABLE", k, VIOLATED, model.where(f), f"{exc} [{cls}]",
+                              f"{fn} has no (further) `raise {exc or '<exception>'}` whose guard reads {sorted(need)} "
+                              f"(incompatibility class: {cls}); guards of that type present read: {near[:4]}. Operands of this "
+                              "class are not rejected by the library and reach torch, which broadcasts size-1 axes or fails "
+                              "with a foreign exception"))
     return obs
 
 
@@ -260,7 +270,20 @@ def classify_axis_uses(model: Model, f: Func, param: str, seen=None):
     fn = f.node
     par = _ancestors_map(fn)
     res = {"guard": [], "loud": [], "silent": []}
-    # names derived by normalisation: `index = [index]` keeps the name
+    # element aliases: `for i in param` / `[... for i in param]` - a range guard on the element guards the parameter
+    for n in ast.walk(fn):
+        it, tg = None, None
+        if isinstance(n, ast.For):
+            it, tg, scope = n.iter, n.target, n
+        elif isinstance(n, ast.comprehension):
+            it, tg, scope = n.iter, n.target, par.get(id(n))
+        if it is not None and isinstance(it, ast.Name) and it.id == param and isinstance(tg, ast.Name):
+            for q in ast.walk(scope):
+                if isinstance(q, ast.If) and any(isinstance(x, ast.Raise) for x in q.body) and \
+                        any(isinstance(x, ast.Name) and x.id == tg.id for x in ast.walk(q.test)):
+                    txt = norm(q.test)
+                    if "len(" in txt and ("<" in txt or ">" in txt):
+                        res["guard"].append(q)
     for n in ast.walk(fn):
         if not (isinstance(n, ast.Name) and n.id == param and isinstance(n.ctx, ast.Load)):
             continue
